@@ -360,7 +360,14 @@ def run_case(desc):
     with scratch_dir("c09") as d:
         root = os.path.join(d, "p")
         os.makedirs(root)
-        o = run_project(root, desc)
+        try:
+            o = run_project(root, desc)
+        except Exception as e:  # noqa: BLE001
+            # the implementation could not even build / observe the project (e.g. init() no longer creates job
+            # directories): report it as an observation that nothing can match, not as a harness crash
+            o = {"ids": [], "pre": [], "cache": None, "listing": [], "check": ["exn", "EOther"], "open": [],
+                 "repair": ["exn", "EOther"], "post": [], "check_after": ["exn", "EOther"], "open_after": [],
+                 "harness_exception": repr(e)[:300]}
     texts = sorted({data for comps, kind, data in o["pre"] + o["post"] if kind == "file" and comps[-1] == SPF})
     table, values = [], [SHAPES[s] for s in desc["jobs"]]
     disagree = False
@@ -395,7 +402,7 @@ def run_case(desc):
     kinds.append("check-after:" + o["check_after"][0])
     if disagree:
         kinds.append("decoders-disagree")
-    obs = {k: o[k] for k in ("listing", "check", "open", "repair", "check_after", "open_after")}
+    obs = {k: o[k] for k in ("listing", "check", "open", "repair", "check_after", "open_after", "harness_exception") if k in o}
     return Case(coq, desc, obs=obs, nontrivial=damaged, kinds=kinds, prelude=list(E.prelude.items()))
 
 
